@@ -119,6 +119,43 @@ func (a *ordAnalysis) elemClass(e ssa.Value, site ssa.Instruction) ordClass {
 			return ordNS
 		}
 	}
+	// the test may be packaged as a predicate function or closure applied to the element
+	var pT, pF []an.Edge
+	for _, e := range an.EdgesWhere(a.fn, func(f an.Fact) bool { return true }) {
+		f, _ := an.EdgeFact(e)
+		v := f.Cond
+		neg := f.Neg
+		for {
+			if u, ok := v.(*ssa.UnOp); ok && u.Op == token.NOT {
+				v, neg = u.X, !neg
+				continue
+			}
+			break
+		}
+		k, ok := v.(*ssa.Call)
+		if !ok || len(k.Common().Args) != 1 || an.Norm(k.Common().Args[0]) != en {
+			continue
+		}
+		p := an.StaticCallee(k)
+		if p == nil || !isSoftPredicate(p) {
+			continue
+		}
+		if neg {
+			pF = append(pF, e)
+		} else {
+			pT = append(pT, e)
+		}
+	}
+	if len(pT) > 0 {
+		if h, _ := an.PathTo(a.fn, nil, an.IsInstr(site), an.NewGates().AddEdges(pT...)); h == nil {
+			return ordS
+		}
+	}
+	if len(pF) > 0 {
+		if h, _ := an.PathTo(a.fn, nil, an.IsInstr(site), an.NewGates().AddEdges(pF...)); h == nil {
+			return ordNS
+		}
+	}
 	a.why = append(a.why, "element "+en+" appended without a decided soft/non-soft test")
 	return ordAny
 }
@@ -418,7 +455,7 @@ func ruleRootCauseSiblings(rule string) RuleFn {
 			for _, st := range stores {
 				k := st.Val.(*ssa.Const).Int64()
 				tEdges := an.EdgesWhere(fn, an.FactIs(want))
-				fEdges := an.EdgesWhere(fn, an.FactIs("(len(p:dg.Failed.RootCauses) != 0)"))
+				fEdges := an.EdgesWhere(fn, an.FactIs("(len(p:dg.Failed.RootCauses) > 0)"))
 				edges := tEdges
 				if k == 2 {
 					edges = fEdges
@@ -434,4 +471,63 @@ func ruleRootCauseSiblings(rule string) RuleFn {
 		}
 		c.Floor(rule, "failure-marking functions in internal/dot", n, 3)
 	}
+}
+
+// isSoftPredicate: p takes one paramObjectField and returns exactly
+// "its Param is a paramGroupedSlice and that slice is Soft".
+func isSoftPredicate(p *ssa.Function) bool {
+	if len(p.Params) != 1 || len(p.Blocks) == 0 || p.Signature.Results().Len() != 1 {
+		return false
+	}
+	q := "p:" + an.CanonParam(p.Params[0])
+	okFact := q + ".Param.(dig.paramGroupedSlice)#1"
+	softExpr := q + ".Param.(dig.paramGroupedSlice)#0.Soft"
+	okT := an.EdgesWhere(p, an.FactIs(okFact))
+	var isSoftVal func(v ssa.Value, at ssa.Instruction) bool
+	isSoftVal = func(v ssa.Value, at ssa.Instruction) bool {
+		v = an.Resolve(v)
+		if an.Norm(v) == softExpr {
+			// must be evaluated under ok
+			in, isIn := v.(ssa.Instruction)
+			if !isIn || len(okT) == 0 {
+				return false
+			}
+			h, _ := an.PathTo(p, nil, an.IsInstr(in), an.NewGates().AddEdges(okT...))
+			return h == nil
+		}
+		if ph, ok := v.(*ssa.Phi); ok {
+			soft := false
+			for _, e := range ph.Edges {
+				if k, isC := e.(*ssa.Const); isC && k.Value != nil && k.Value.String() == "false" {
+					continue
+				}
+				if isSoftVal(e, at) {
+					soft = true
+					continue
+				}
+				return false
+			}
+			return soft
+		}
+		return false
+	}
+	nSoft, n := 0, 0
+	good := true
+	an.Instrs(p, func(in ssa.Instruction) {
+		r, ok := in.(*ssa.Return)
+		if !ok {
+			return
+		}
+		n++
+		v := an.Resolve(r.Results[0])
+		if k, isC := v.(*ssa.Const); isC && k.Value != nil && k.Value.String() == "false" {
+			return
+		}
+		if isSoftVal(v, r) {
+			nSoft++
+			return
+		}
+		good = false
+	})
+	return good && nSoft > 0 && n > 0
 }
